@@ -282,6 +282,44 @@ func runC11(c *Ctx) {
 		c.Check(okCb, "sole invoker of fsm."+cbField, "-", "only the transition function emits events", fmt.Sprintf("callback invoked by %v", ws))
 	}
 
+	// the per-instance FSM map only grows: entries are created on first use and never removed
+	// or replaced (a removed entry silently resets a finished instance to None)
+	{
+		mapF := fieldOfType(reporterT, func(t types.Type) bool {
+			mt, ok := t.Underlying().(*types.Map)
+			if !ok {
+				return false
+			}
+			pt, ok := mt.Key().(*types.Pointer)
+			return ok && typeIs(pt.Elem(), pkgCompStatus, "InstanceID")
+		})
+		nUpd := 0
+		for _, fn := range funcs {
+			allInstrs(fn, func(in ssa.Instruction) {
+				if ci, ok := in.(ssa.CallInstruction); ok && builtinName(ci) == "delete" && isFieldAccess(ci.Common().Args[0], reporterT, mapF) {
+					c.Bad("FSM map entry deleted in "+fnName(fn), p.Pos(in.Pos()), "an instance's state machine is removed: a later report starts again from None, so events can follow Stopped/FatalError")
+				}
+				if mu, ok := in.(*ssa.MapUpdate); ok && isFieldAccess(mu.Map, reporterT, mapF) {
+					nUpd++
+					// guarded by a failed lookup of the same key
+					guarded := false
+					for _, g := range guardsOf(mu.Block()) {
+						v, br := boolOf(g)
+						if ex, ok := v.(*ssa.Extract); ok && ex.Index == 1 && !br {
+							if lk, ok := ex.Tuple.(*ssa.Lookup); ok && isFieldAccess(lk.X, reporterT, mapF) && sameValue(lk.Index, mu.Key) {
+								guarded = true
+							}
+						}
+					}
+					c.Check(guarded, "FSM map entry created only when missing in "+fnName(fn), p.Pos(mu.Pos()), "insert under lookup-miss of the same key", "an existing instance's state machine can be replaced (state reset to None)")
+				}
+			})
+		}
+		if nUpd == 0 {
+			c.Undecided("FSM map insertion site", "-", "no insertion into the reporter's FSM map found")
+		}
+	}
+
 	c.Rule("R2", "", "", 0)
 	if transitionFn != nil {
 		fn := transitionFn
@@ -422,6 +460,29 @@ func runC11(c *Ctx) {
 	}
 	if found == 0 {
 		c.Undecided("automatic OK site", "-", "no transition(NewEvent(StatusOK)) call found")
+	}
+	// every service-generated OK event built in this package must go straight into the guarded
+	// transition (not through another entry point that re-acquires the lock later)
+	for _, fn := range funcs {
+		allInstrs(fn, func(in ssa.Instruction) {
+			ev, ok := in.(*ssa.Call)
+			if !ok || !isFunc(calleeOf(ev), pkgCompStatus, "NewEvent") {
+				return
+			}
+			k, ok := constInt(ev.Call.Args[0])
+			if !ok || names[k] != "OK" {
+				return
+			}
+			direct := false
+			if refs := ev.Referrers(); refs != nil {
+				for _, r := range *refs {
+					if ci, ok := r.(ssa.CallInstruction); ok && transObj != nil && calleeOf(ci) == transObj {
+						direct = true
+					}
+				}
+			}
+			c.Check(direct, "service-generated OK event goes directly into the guarded transition in "+fnName(fn), p.Pos(ev.Pos()), "argument of fsm.transition", "the automatic OK is routed through another reporting entry point: the Starting test and the transition are no longer one critical section, an error reported in between is overwritten by OK")
+		})
 	}
 
 	// R5: LOCK
